@@ -103,10 +103,10 @@ func concBloom(c *Ctx, g int) {
 	b, _ := bloomAbsMem(seq)
 	replay := map[string]interface{}{"structure": "BloomFilter", "goroutines": g}
 	for _, m := range bad {
-		c.fail([]string{"C07"}, "conc-own-write-invisible", "BloomFilter: "+m, replay)
+		c.fail([]string{"C07", "C01"}, "conc-own-write-invisible", "BloomFilter: "+m, replay)
 	}
 	if !eqU64(a.Bits, b.Bits) {
-		c.fail([]string{"C07"}, "conc-final-state", fmt.Sprintf("BloomFilter: final bits after %d concurrent goroutines differ from the sequential application of the same inserts", g), replay)
+		c.fail([]string{"C07", "C01"}, "conc-final-state", fmt.Sprintf("BloomFilter: final bits after %d concurrent goroutines differ from the sequential application of the same inserts", g), replay)
 	}
 	c.nontrivial(fmt.Sprint("bloom", g, len(all)))
 }
@@ -127,6 +127,9 @@ func concCMS(c *Ctx, g int) {
 		own := map[string]uint64{}
 		for i := 0; i < 30; i++ {
 			e := []byte(fmt.Sprintf("w%d-%d", w, rng.Intn(10)))
+			if rng.Intn(3) == 0 {
+				e = []byte(fmt.Sprintf("hot-%d", rng.Intn(2))) // contended by all goroutines
+			}
 			switch rng.Intn(7) {
 			case 0, 1, 2:
 				n := uint64(1 + rng.Intn(3))
@@ -186,10 +189,10 @@ func concCMS(c *Ctx, g int) {
 	b, _ := parseCMS(seq.Export())
 	replay := map[string]interface{}{"structure": "CountMinSketch", "goroutines": g}
 	for _, m := range bad {
-		c.fail([]string{"C07"}, "conc-own-write-invisible", "CountMinSketch: "+m, replay)
+		c.fail([]string{"C07", "C03", "C12"}, "conc-own-write-invisible", "CountMinSketch: "+m, replay)
 	}
 	if matrixStr(a.M) != matrixStr(b.M) {
-		c.fail([]string{"C07"}, "conc-final-state", fmt.Sprintf("CountMinSketch: final matrix after %d concurrent goroutines differs from the sequential application (an update was lost or doubled)", g), replay)
+		c.fail([]string{"C07", "C03", "C12"}, "conc-final-state", fmt.Sprintf("CountMinSketch: final matrix after %d concurrent goroutines differs from the sequential application (an update was lost or doubled)", g), replay)
 	}
 	c.nontrivial(fmt.Sprint("cms", g, len(all)))
 }
@@ -238,7 +241,7 @@ func concHLL(c *Ctx, g int) {
 	a, _ := parseHLL(h.Export())
 	b, _ := parseHLL(seq.Export())
 	if !eqU64(a.regs(), b.regs()) {
-		c.fail([]string{"C07"}, "conc-final-state", fmt.Sprintf("HyperLogLog: final registers after %d concurrent goroutines differ from the sequential application", g), map[string]interface{}{"structure": "HyperLogLog", "goroutines": g})
+		c.fail([]string{"C07", "C06"}, "conc-final-state", fmt.Sprintf("HyperLogLog: final registers after %d concurrent goroutines differ from the sequential application", g), map[string]interface{}{"structure": "HyperLogLog", "goroutines": g})
 	}
 	c.nontrivial(fmt.Sprint("hll", g, len(all)))
 }
@@ -250,11 +253,16 @@ func concCuckoo(c *Ctx, g int) {
 	okIns, okRem := 0, 0
 	var liveAll [][]byte
 	var bad []string
+	net := map[string]int{} // successful inserts minus successful removes, per element, all goroutines
 	runWorkers(c, g, func(w int, rng *rand.Rand) {
 		live := map[string]int{}
 		ins, rem := 0, 0
 		for i := 0; i < 12; i++ {
 			e := []byte(fmt.Sprintf("worker-%d-element-%d", w, rng.Intn(6)))
+			sharedE := rng.Intn(3) == 0
+			if sharedE {
+				e = []byte(fmt.Sprintf("shared-element-%d", rng.Intn(2))) // contended by all goroutines
+			}
 			switch rng.Intn(6) {
 			case 0, 1, 2:
 				ok := false
@@ -262,14 +270,16 @@ func concCuckoo(c *Ctx, g int) {
 				if ok {
 					ins++
 					live[string(e)]++
-					if !f.Lookup(e) {
+					if !sharedE && !f.Lookup(e) {
 						mu.Lock()
 						bad = append(bad, fmt.Sprintf("worker %d does not find %s right after its successful Insert", w, e))
 						mu.Unlock()
 					}
 				}
 			case 3:
-				if live[string(e)] > 0 && f.Remove(e) {
+				// shared elements are removed whether or not this goroutine inserted them: several
+				// removers may compete for fewer stored copies; each copy can be removed only once
+				if (sharedE || live[string(e)] > 0) && f.Remove(e) {
 					rem++
 					live[string(e)]--
 				}
@@ -288,24 +298,30 @@ func concCuckoo(c *Ctx, g int) {
 		okIns += ins
 		okRem += rem
 		for e, n := range live {
-			if n > 0 {
-				liveAll = append(liveAll, []byte(e))
-			}
+			net[e] += n
 		}
 		mu.Unlock()
 	})
+	for e, n := range net {
+		if n > 0 {
+			liveAll = append(liveAll, []byte(e))
+		}
+		if n < 0 {
+			bad = append(bad, fmt.Sprintf("%s was removed successfully %d more times than it was inserted", e, -n))
+		}
+	}
 	c.rep.Ops["cuckoo.calls"] += 12 * g
 	replay := map[string]interface{}{"structure": "CuckooFilter", "goroutines": g}
 	for _, m := range bad {
-		c.fail([]string{"C07"}, "conc-own-write-invisible", "CuckooFilter: "+m, replay)
+		c.fail([]string{"C07", "C02", "C13"}, "conc-own-write-invisible", "CuckooFilter: "+m, replay)
 	}
 	d, _ := parseCuckoo(f.Export())
 	if f.Length() != uint64(okIns-okRem) || d.stored() != okIns-okRem {
-		c.fail([]string{"C07"}, "conc-final-state", fmt.Sprintf("CuckooFilter: Length %d / stored %d after %d successful inserts and %d removes by %d goroutines", f.Length(), d.stored(), okIns, okRem, g), replay)
+		c.fail([]string{"C07", "C13"}, "conc-final-state", fmt.Sprintf("CuckooFilter: Length %d / stored %d after %d successful inserts and %d removes by %d goroutines", f.Length(), d.stored(), okIns, okRem, g), replay)
 	}
 	for _, e := range liveAll {
 		if !f.Lookup(e) {
-			c.fail([]string{"C07"}, "conc-final-state", fmt.Sprintf("CuckooFilter: live element %s not found after concurrent use", e), replay)
+			c.fail([]string{"C07", "C02"}, "conc-final-state", fmt.Sprintf("CuckooFilter: live element %s not found after concurrent use", e), replay)
 			break
 		}
 	}
@@ -318,15 +334,31 @@ func concTopK(c *Ctx, g int) {
 	c.rep.Cases++
 	var mu sync.Mutex
 	truth := map[string]uint64{}
+	var badTopK []string
 	runWorkers(c, g, func(w int, rng *rand.Rand) {
 		own := map[string]uint64{}
 		for i := 0; i < 25; i++ {
 			e := fmt.Sprintf("w%d-%d", w, rng.Intn(4))
+			if rng.Intn(3) == 0 {
+				e = "hot" // one element inserted by all goroutines: its entry is refreshed concurrently
+			}
 			switch rng.Intn(5) {
 			case 0, 1, 2:
 				n := uint64(1 + rng.Intn(3))
+				if e == "hot" {
+					n += 40 // heavy enough to be tracked
+				}
 				t.Insert([]byte(e), n)
 				own[e] += n
+				if e == "hot" {
+					for _, v := range topkElems(t.Values()) {
+						if v.V == e && v.F < own[e] {
+							mu.Lock()
+							badTopK = append(badTopK, fmt.Sprintf("worker %d: %q is reported with count %d, below the %d this goroutine alone has inserted", w, e, v.F, own[e]))
+							mu.Unlock()
+						}
+					}
+				}
 			case 3:
 				t.Values()
 			default:
@@ -346,6 +378,10 @@ func concTopK(c *Ctx, g int) {
 	c.rep.Ops["topk.calls"] += 25 * g
 	vals := topkElems(t.Values())
 	replay := map[string]interface{}{"structure": "TopK", "goroutines": g, "values": fmt.Sprint(vals)}
+	for _, m := range badTopK {
+		c.fail([]string{"C07", "C04"}, "conc-own-write-invisible", "TopK: "+m, replay)
+		break
+	}
 	want := int(k)
 	if len(truth) < want {
 		want = len(truth)
@@ -373,7 +409,7 @@ func concTopK(c *Ctx, g int) {
 		}
 	}
 	if !okAll {
-		c.fail([]string{"C07"}, "conc-final-state", fmt.Sprintf("TopK: after %d concurrent goroutines Values=%v violates the Top-K clauses (size %d, no duplicates, true total <= count <= stream total, unreported elements no heavier than the smallest reported count) for totals %v", g, vals, k, truth), replay)
+		c.fail([]string{"C07", "C04"}, "conc-final-state", fmt.Sprintf("TopK: after %d concurrent goroutines Values=%v violates the Top-K clauses (size %d, no duplicates, true total <= count <= stream total, unreported elements no heavier than the smallest reported count) for totals %v", g, vals, k, truth), replay)
 	}
 	c.nontrivial(fmt.Sprint("topk", g, len(truth)))
 }
